@@ -80,6 +80,7 @@ def universe_distinct_leaves():
         [[10, "x"], {"a": 11}], {"b": 1}, {"a": "s", "ab": 2, "ba": 3}, "s", 5,
         [1, 1, "a"], {"a": [10, "x", None], "b": {"a": "y", "b": 2.5}}, [["p", 7], ["q", 8]],
         {"ab": {"a": 1, "b": "t"}, "a": 0}, [{"a": 1, "b": 2}, {"a": "u"}, 3],
+        {"0": "s", "12": [10, {"7": None}], "a": {"0": 1.5}},      # property names made of digits only
     ]
 
 
